@@ -28,6 +28,12 @@ THEOREMS = [
     "Typedpy.C07.cache_transparent",
     "Typedpy.C07.history_transparent",
     "Typedpy.C07.history_transparent_from_empty",
+    "Typedpy.C07.spec_ser_eq_ser",
+    "Typedpy.C07.ser_aggregate_pointwise_every_level",
+    "Typedpy.C07.deser_aggregate_shape",
+    "Typedpy.C07.sync_in_region",
+    "Typedpy.C07.mapper_round_trip_region",
+    "Typedpy.C07.region_example",
 ]
 RULE = ("class hierarchies (1-3 levels of single inheritance, fresh classes per case) with 1-7 Integer / nested "
         "fields (nested classes directly, in Array, in Set; nesting depth <= 3), per-class _serialization_mapper "
@@ -123,6 +129,11 @@ def judge_call(cd, case, impl, model, hist):
                       + json.dumps(spec_doc)[:300] + hist))
     # ---- round trip inside the demanded domain
     hyp = model["hyp"]
+    # theorems checked against the model itself (a contradiction means model/driver and proofs diverged)
+    if hyp.get("region") and hyp.get("domE") and not hyp["rt"] and not msg:
+        msg = "inside regionOK and levelDomE but levelOK fails somewhere: theorem sync_in_region contradicted"
+    if hyp.get("wf") and hyp.get("conf") and model["spec"] != model["ser"] and not msg:
+        msg = "model document differs from the specification document: theorem spec_ser_eq_ser contradicted"
     if hyp["dom"] and "deser" in impl:
         r = impl["deser"]
         good = ("ok" in r and r.get("equal") and not r.get("extras")
@@ -130,6 +141,8 @@ def judge_call(cd, case, impl, model, hist):
         if not good:
             # dom and not rt  <=>  Sync fails at some (necessarily nested) level
             key = "roundtrip:unexplained" if hyp["rt"] else "nested-resync"
+            if hyp.get("region") and hyp.get("domE") and not S.closed(cd):
+                key = "roundtrip:inside-the-proved-region"
             if hyp["rt"] and S.closed(cd) and case.get("entry", "Deserializer") == "Deserializer":
                 # sites in the choice of extra kwargs (deserialize_structure_internal / Deserializer.deserialize)
                 if r.get("extras"):
